@@ -110,7 +110,8 @@ def analyse_config(rep, config, class_counts):
     return npaths, prog
 
 
-COUPLED = {'producer': 'ec_init_tables', 'consumers': ['ec_encode_data', 'ec_encode_data_update']}
+# consumers: every public entry point whose header comment says its tables are "generated from coding coefficients in ec_init_tables()" (erasure_code.h)
+COUPLED = {'producer': 'ec_init_tables', 'consumers': ['ec_encode_data', 'ec_encode_data_update', 'gf_vect_dot_prod', 'gf_vect_mad']}
 
 
 def neg_clauses(p):
@@ -217,10 +218,16 @@ def agree_tableformat(rep, config, selections, reqcache, prog):
             R.ok(npairs, sample='%s x %s: %d feasible path pairs, formats agree' % (COUPLED['producer'], cons, npairs))
 
 
-def check_tablefmt(rep):
-    """D-AGREE-TABLEFMT of the default configuration, for the properties whose statement includes "tables built with the builder that matches the consumer" (C03, C09, C12, C13)"""
+def check_tablefmt(rep, consumers=('ec_encode_data', 'ec_encode_data_update')):
+    """D-AGREE-TABLEFMT of the default configuration, for the properties whose statement includes "tables built with the builder that matches the consumer" (C03, C09, C12, C13);
+    each of them names the consumers its statement is about (C03: encode and dot product, C13: update and multiply-accumulate)"""
     tmp = Report('C16', 'quick', level='other')
-    analyse_config(tmp, 'default', collections.Counter())
+    saved = COUPLED['consumers']
+    COUPLED['consumers'] = list(consumers)
+    try:
+        analyse_config(tmp, 'default', collections.Counter())
+    finally:
+        COUPLED['consumers'] = saved
     got = [r for r in tmp.rules if r.id.startswith('D-AGREE-TABLEFMT')]
     if not got:
         raise AnalysisBroken('D-AGREE-TABLEFMT was not evaluated')
